@@ -15,7 +15,8 @@ Flow of one run
      (255..513 rows quick, 63..1025 thorough, clusters stored late in the row order; predict
      batches of 257..1025 rows), multi-scale dyadic sets (tight groups at 2^-45 of the extent,
      two-level integer codes) and geometric (doubling) coordinates; inherent and api-trait
-     entry points.
+     entry points.  Query rows: in-sample, near (at / just inside / just outside the radius), far,
+     and 'contested' rows chosen after a preliminary fit (ball with >= 2 clusters and noise).
   4. TLC validates every recorded event with DbscanTrace.tla, i.e. with the very predicates
      of step 1: the seven clauses of the labelling, back-end independence, and PredictOK.
   5. A failed clause is a VIOLATION (or a KNOWN-FINDING when listed in known_findings/C13.json);
@@ -55,7 +56,7 @@ LANES = {
 
 MUST_HIT = ("Run", "FitOk", "SingleRow", "AllIdentical", "Core", "Border", "Noise", "TwoClusters", "ProvisionalNoise",
             "AmbiguousBorder", "ExactEps", "Duplicates", "BackendPair",
-            "PredictEmpty", "PredictNoiseWins", "PredictTie", "PredictPlurality")
+            "PredictEmpty", "PredictNoiseWins", "PredictContestedNoise", "PredictTie", "PredictPlurality")
 
 RULE = ("Data sets: (a) every input of the Emit model-checking configurations, replayed through the real DBSCAN with "
         "both back ends -- quick: all sequences of 1..5 points on the 1-D lattice {0..3} and of 1..4 points on the 2-D "
@@ -64,7 +65,8 @@ RULE = ("Data sets: (a) every input of the Emit model-checking configurations, r
         "blobs, chains with steps exactly eps, duplicates, bridges between two clusters, all-identical; widely spread "
         "half-integer sets and far-apart islands in 2..4 dimensions with eps small relative to the spread; a size "
         "ladder up to 513 (quick) / 1025 (thorough) rows with late-stored clusters and long predict batches; "
-        "multi-scale dyadic sets with groups at 2^-40..2^-48 of the extent; doubling coordinates), eps from "
+        "multi-scale dyadic sets with groups at 2^-40..2^-48 of the extent; doubling coordinates; 'contested' sets "
+        "whose centre cell sees several clusters and noise), eps from "
         "'all noise' to 'one cluster', minPts 1..8, Manhattan / Minkowski-1 / Euclidean, f64 / f32, power-of-two "
         "scales. A data set is non-trivial when it has a border row or at least two clusters (decided by TLC from "
         "the definitions); distinct = distinct (points, key, eps, minPts)")
